@@ -93,7 +93,7 @@ func c43(c *Ctx) {
 	c.PassThrough(cr, Calls(create), Stores(N+"details"))
 	c.StoredFrom(cr, Stores(N+"expiry"), "now.Add", func(v ssa.Value) bool {
 		call, ok := v.(*ssa.Call)
-		return ok && IsCallTo("(time.Time).Add")(v) && Term(call.Call.Args[0]) == "$0"
+		return ok && IsCallTo("(time.Time).Add")(v) && Term(BaselineArgs(&call.Call)[0]) == "$0"
 	})
 	c.Reject(cr, Calls(heapPush), "create($r,$1.Root).details.Duration < 0")
 	c.Before(cr, Stores(N+"expiry"), Calls(heapPush))
@@ -154,7 +154,7 @@ func c43(c *Ctx) {
 				}
 				return false
 			})
-			c.Check(WdIsParam(fn, 0)(cb.Call.Args[0]) || DependsOn(cb.Call.Args[0], WdIsParam(fn, 0)), "derives-from", wr+": callback name derives from the name parameter", cb.Pos(), "", "callback is not given the walked name")
+			c.Check(WdIsParam(fn, 0)(BaselineArgs(&cb.Call)[0]) || DependsOn(BaselineArgs(&cb.Call)[0], WdIsParam(fn, 0)), "derives-from", wr+": callback name derives from the name parameter", cb.Pos(), "", "callback is not given the walked name")
 		}
 	}
 
@@ -206,7 +206,7 @@ func c43(c *Ctx) {
 	c.CallAfterIncl(rf, c.Edge("$r.byToken[$1].byExpiryIndex >= 0"), heapRemove) // never pushed twice: the old heap entry is removed first
 	c.StoredFrom(rf, Stores(N+"expiry"), "now.Add", func(v ssa.Value) bool {
 		call, ok := v.(*ssa.Call)
-		return ok && IsCallTo("(time.Time).Add")(v) && Term(call.Call.Args[0]) == "$0"
+		return ok && IsCallTo("(time.Time).Add")(v) && Term(BaselineArgs(&call.Call)[0]) == "$0"
 	})
 
 	// ---- Confirm / lookup / hold / unhold
@@ -220,7 +220,7 @@ func c43(c *Ctx) {
 	c.Guard(cf, Calls(hold).ArgIs(1, "lookup($r,slashClean($1),$3)"), "lookup($r,slashClean($1),$3) != nil")
 	c.Count(cf+"$1", Calls(unhold), 2, 2)
 	c.WdGuardSelf(cf+"$1", Calls(unhold), "its node != nil", func(in ssa.Instruction) []string {
-		return []string{Term(in.(*ssa.Call).Call.Args[1]) + " != nil"}
+		return []string{Term(BaselineArgs(&in.(*ssa.Call).Call)[1]) + " != nil"}
 	})
 
 	// lookup: only unheld nodes; exact name, or an infinite-depth ancestor via a "/"-terminated prefix
@@ -238,7 +238,7 @@ func c43(c *Ctx) {
 		return ok && Term(lk.X) == "$r.byToken" && strings.HasSuffix(Term(lk.Index), ".Token")
 	})
 	c.Has(lookup, Calls("strings.HasPrefix").ArgIs(0, "$0").Where("prefix ends in \"/\"", func(in ssa.Instruction) bool {
-		bo, ok := in.(*ssa.Call).Call.Args[1].(*ssa.BinOp)
+		bo, ok := BaselineArgs(&in.(*ssa.Call).Call)[1].(*ssa.BinOp)
 		return ok && bo.Op == token.ADD && Term(bo.Y) == `"/"` && strings.HasSuffix(Term(bo.X), ".details.Root")
 	}))
 	c.Count(lookup, Calls("strings.HasPrefix"), 1, 1)
@@ -350,7 +350,7 @@ func c43ConfirmSecond(c *Ctx, cf, lookup, hold string) {
 	isLookup := func(arg string) func(ssa.Value) bool {
 		return func(v ssa.Value) bool {
 			call, ok := v.(*ssa.Call)
-			return ok && IsCallTo(lookup)(v) && Term(call.Call.Args[1]) == arg
+			return ok && IsCallTo(lookup)(v) && Term(BaselineArgs(&call.Call)[1]) == arg
 		}
 	}
 	first, second := isLookup("slashClean($1)"), isLookup("slashClean($2)")
@@ -360,7 +360,7 @@ func c43ConfirmSecond(c *Ctx, cf, lookup, hold string) {
 	holds := Calls(hold).F(c.P, fn)
 	var hold2 []ssa.Instruction
 	for _, h := range holds {
-		if fromSecond(h.(*ssa.Call).Call.Args[1]) {
+		if fromSecond(BaselineArgs(&h.(*ssa.Call).Call)[1]) {
 			hold2 = append(hold2, h)
 		}
 	}
@@ -405,7 +405,7 @@ func c43ConfirmSecond(c *Ctx, cf, lookup, hold string) {
 		reset := false
 		for _, in := range eq.Instrs {
 			if st, isSt := in.(*ssa.Store); isSt && isNil(st.Val) {
-				if u, isU := hold2[0].(*ssa.Call).Call.Args[1].(*ssa.UnOp); isU && u.X == st.Addr {
+				if u, isU := BaselineArgs(&hold2[0].(*ssa.Call).Call)[1].(*ssa.UnOp); isU && u.X == st.Addr {
 					reset = true
 				}
 			}
@@ -417,7 +417,7 @@ func c43ConfirmSecond(c *Ctx, cf, lookup, hold string) {
 	c.Check(ok, rule, construct, hold2[0].Pos(), "", "no dominating test (first node == second node) that clears the second node or skips its hold: the same lock would be held twice (panic)")
 	// the second hold is under a non-nil test of its own argument
 	c.WdGuardSelf(cf, Sel{Name: "second hold", F: func(*Prog, *ssa.Function) []ssa.Instruction { return hold2 }}, "its node != nil", func(in ssa.Instruction) []string {
-		return []string{Term(in.(*ssa.Call).Call.Args[1]) + " != nil"}
+		return []string{Term(BaselineArgs(&in.(*ssa.Call).Call)[1]) + " != nil"}
 	})
 }
 
